@@ -868,11 +868,11 @@ def gen_flag_case(rng):
     r = rng.random()
     if r < 0.15:
         case['own_prefix'] = 'cs' if r < 0.10 else 's' if r < 0.14 else 'none'
+    reach = set()
     if 'own_prefix' in case:
         # outside the abstraction (a chunk info = its flags array): a candidate whose chain reaches the opened stream and
         # whose own info is not the most specific one picks up the prefix-less info of the opened stream, ALL arrays of
         # which would then take the candidate's chunk name
-        reach = set()
         for c in cands:
             if c.get('inherit') == 'sdp_l0' or c.get('inherit') in reach:
                 reach.add(c['name'])
@@ -882,6 +882,8 @@ def gen_flag_case(rng):
             opts = ['cs', 'cs', 's'] + (['p', 'cp'] if str(c.get('inherit', '')).startswith('par') else []) \
                 + (['none'] if 'own_prefix' not in case else [])
             c['prefix_at'] = rng.choice(opts)
+            if 'own_prefix' in case and c['name'] in reach:
+                c['prefix_at'] = 'cs'        # (else the chunk name of the opened stream, more specific, would be taken)
     if cands and rng.random() < 0.25:
         case['archived_decoy'] = rng.choice([[], [cands[0]['name']], [c['name'] for c in reversed(cands)]])
     return case
